@@ -299,6 +299,9 @@ func genC14(seed, index uint64, tier string) *Plan {
 		if g.Chance(0.3) {
 			op.DryRun, op.DryRunOption, op.ClientOnly, op.Replace = true, "true", true, true
 		}
+		if g.Chance(0.3) {
+			op = OpSpec{Op: "lint", Chart: 0, Values: vals, SkipSchema: op.SkipSchema}
+		}
 		op.Description = fmt.Sprintf("c14:%s:true:%s", v, rule)
 		p.Steps = append(p.Steps, Step{Op: &op})
 		p.Variant = "shape4-three-levels"
@@ -315,6 +318,10 @@ func genC14(seed, index uint64, tier string) *Plan {
 	case 1: // template-shaped install
 		vals, v, rule, se := draw()
 		op := OpSpec{Op: "install", Chart: 1, Values: vals, DryRun: true, DryRunOption: "true", ClientOnly: g.Chance(0.7), Replace: true, SkipSchema: g.Chance(0.2)}
+		if g.Chance(0.5) {
+			// helm lint is the fourth command the statement names
+			op = OpSpec{Op: "lint", Chart: 1, Values: vals, SkipSchema: op.SkipSchema}
+		}
 		op.Description = fmt.Sprintf("c14:%s:%v:%s", v, se, rule)
 		p.Steps = append(p.Steps, Step{Op: &op})
 	case 2: // install clean, upgrade with violating values
